@@ -6,6 +6,27 @@
 (* each variant owns exactly one live payload matching what it reports (Quiescent), a       *)
 (* variant turns valueless only in a call that threw, observers change nothing.             *)
 EXTENDS Variant
+
+(* (round 4) Laws of the relational operators over PARTIALLY ordered payload values, checked by TLC once at start-up:       *)
+(* with an unordered value on either side of the same alternative every operator but != answers FALSE - so <= is NOT        *)
+(* "not >" and >= is NOT "not <" there (an implementation that derives one operator from another is rejected by L1);        *)
+(* on ordered values the usual derivations do hold; operands holding different alternatives never consult the values.      *)
+RelOps == {"eq", "ne", "lt", "gt", "le", "ge"}
+LawVals == {0, 1, 2, MOVED, UNORD}
+ASSUME PartialOrderLaws ==
+    \A i \in Alts, a \in LawVals, b \in LawVals :
+        LET x == Holds(i, a, 0)  y == Holds(i, b, 0)  un == a = UNORD \/ b = UNORD IN
+        /\ un => \A r \in RelOps : RelRes(r, x, y) = (r = "ne")
+        /\ RelRes("ne", x, y) = ~RelRes("eq", x, y)
+        /\ (RelRes("le", x, y) = ~RelRes("gt", x, y)) = ~un
+        /\ (RelRes("ge", x, y) = ~RelRes("lt", x, y)) = ~un
+        /\ RelRes("le", x, y) = RelRes("ge", y, x) /\ RelRes("lt", x, y) = RelRes("gt", y, x)
+ASSUME IndexOrderLaws ==
+    \A i \in Alts, j \in Alts, a \in LawVals, b \in LawVals : i < j =>
+        LET x == Holds(i, a, 0)  y == Holds(j, b, 0) IN
+        /\ RelRes("lt", x, y) /\ RelRes("le", x, y) /\ RelRes("ne", x, y)
+        /\ ~RelRes("gt", x, y) /\ ~RelRes("ge", x, y) /\ ~RelRes("eq", x, y)
+        /\ \A r \in RelOps : RelRes(r, Valueless, x) = (r \in {"lt", "le", "ne"}) /\ RelRes(r, Valueless, Valueless) = (r \in {"eq", "le", "ge"})
 SmallCalls ==
     {cl \in MCCalls :
         /\ cl.c \in {"CtorDefault", "CtorValue", "CtorMove", "Destroy", "Emplace", "ConvAssign", "CopyAssign", "Swap", "Get", "Rel", "Visit"}
